@@ -34,6 +34,10 @@
 
 #define CB_FAILED (g_cb_fails != __CPROVER_old(g_cb_fails))
 #define RET __CPROVER_return_value
+/* counters only grow; a failure is the failure of a call; at most one call fails (the function stops there) */
+#define CB_DELTA_OK (g_cb_calls >= __CPROVER_old(g_cb_calls) && g_cb_fails >= __CPROVER_old(g_cb_fails) && \
+	g_cb_fails - __CPROVER_old(g_cb_fails) <= 1u && \
+	g_cb_fails - __CPROVER_old(g_cb_fails) <= g_cb_calls - __CPROVER_old(g_cb_calls))
 
 WITNESS(thread_set_state);
 WITNESS(thread_set_cpu);
@@ -73,8 +77,13 @@ __CPROVER_ensures(th->cpu == NULL || (th->state == state &&
 __CPROVER_ensures(RET != 0 || ((CH_IGNORES(CH_ST(th), D_ST0, VALUE_INT64, state) || (CH_HOLDS(CH_ST(th), VALUE_INT64, state) && th->chan[TH_CHAN_STATE].is_dirty != 0)) &&
 	(CH_IGNORES(CH_TID(th), D_TID0, TIDV_T(th, state), TIDV_I(th, state)) ||
 	 (CH_HOLDS(CH_TID(th), TIDV_T(th, state), TIDV_I(th, state)) && th->chan[TH_CHAN_TID].is_dirty != 0))))
-__CPROVER_ensures(g_cb_calls >= __CPROVER_old(g_cb_calls) && g_cb_calls <= __CPROVER_old(g_cb_calls) + 2 &&
-	g_cb_fails >= __CPROVER_old(g_cb_fails) && g_cb_fails <= __CPROVER_old(g_cb_fails) + 1)
+/* dirty callbacks: at most one per channel that stores a value, none without a CPU; at most one fails */
+__CPROVER_ensures(CB_DELTA_OK && g_cb_calls - __CPROVER_old(g_cb_calls) <= 
+	(th->cpu != NULL && CH_CALLS(CH_ST(th), D_ST0, VALUE_INT64, state) ? 1u : 0u) +
+	(th->cpu != NULL && CH_CALLS(CH_TID(th), D_TID0, TIDV_T(th, state), TIDV_I(th, state)) ? 1u : 0u))
+__CPROVER_ensures(RET != 0 || g_cb_calls - __CPROVER_old(g_cb_calls) ==
+	(CH_CALLS(CH_ST(th), D_ST0, VALUE_INT64, state) ? 1u : 0u) +
+	(CH_CALLS(CH_TID(th), D_TID0, TIDV_T(th, state), TIDV_I(th, state)) ? 1u : 0u))
 ;
 
 /* ---------------- thread_set_cpu ---------------- */
@@ -93,12 +102,13 @@ __CPROVER_ensures((RET != 0) == (cpu == NULL || __CPROVER_old(th->cpu) != NULL |
 	CH_REFUSES(CH_CPU(th), D_CPU0, VALUE_INT64, cpu->gindex) || CB_FAILED))
 __CPROVER_ensures((RET == 0 ? g_err == __CPROVER_old(g_err) : g_err > __CPROVER_old(g_err)) && DIAG_POST(3))
 /* effect on th->cpu (the refused cases leave it alone by the frame) */
-__CPROVER_ensures(cpu == NULL || __CPROVER_old(th->cpu) != NULL || th->cpu == cpu)
+/* (pointer_equals, not ==: pitfall 1 -- callers dereference th->cpu after the replaced call) */
+__CPROVER_ensures(cpu == NULL || __CPROVER_old(th->cpu) != NULL || __CPROVER_pointer_equals(th->cpu, cpu))
 /* accepted: the cpu channel holds the global index of the CPU */
 __CPROVER_ensures(RET != 0 || CH_IGNORES(CH_CPU(th), D_CPU0, VALUE_INT64, cpu->gindex) ||
 	(CH_HOLDS(CH_CPU(th), VALUE_INT64, cpu->gindex) && th->chan[TH_CHAN_CPU].is_dirty != 0))
-__CPROVER_ensures(g_cb_calls >= __CPROVER_old(g_cb_calls) && g_cb_calls <= __CPROVER_old(g_cb_calls) + 1 &&
-	g_cb_fails >= __CPROVER_old(g_cb_fails) && g_cb_fails <= __CPROVER_old(g_cb_fails) + 1)
+/* the dirty callback runs exactly when the channel stores the value and was clean */
+__CPROVER_ensures(CB_DELTA_OK && g_cb_calls - __CPROVER_old(g_cb_calls) == ((cpu != NULL && __CPROVER_old(th->cpu) == NULL && CH_CALLS(CH_CPU(th), D_CPU0, VALUE_INT64, cpu->gindex)) ? 1u : 0u))
 ;
 
 /* ---------------- thread_unset_cpu ---------------- */
@@ -117,8 +127,8 @@ __CPROVER_ensures((RET == 0 ? g_err == __CPROVER_old(g_err) : g_err > __CPROVER_
 __CPROVER_ensures(th->cpu == NULL)
 __CPROVER_ensures(RET != 0 || CH_IGNORES(CH_CPU(th), D_CPU0, VALUE_NULL, 0) ||
 	(CH_HOLDS(CH_CPU(th), VALUE_NULL, 0) && th->chan[TH_CHAN_CPU].is_dirty != 0))
-__CPROVER_ensures(g_cb_calls >= __CPROVER_old(g_cb_calls) && g_cb_calls <= __CPROVER_old(g_cb_calls) + 1 &&
-	g_cb_fails >= __CPROVER_old(g_cb_fails) && g_cb_fails <= __CPROVER_old(g_cb_fails) + 1)
+/* the dirty callback runs exactly when the channel stores the value and was clean */
+__CPROVER_ensures(CB_DELTA_OK && g_cb_calls - __CPROVER_old(g_cb_calls) == ((__CPROVER_old(th->cpu) != NULL && CH_CALLS(CH_CPU(th), D_CPU0, VALUE_NULL, 0)) ? 1u : 0u))
 ;
 
 /* ---------------- thread_migrate_cpu ---------------- */
@@ -135,11 +145,11 @@ __CPROVER_ensures(RET == 0 || RET == -1)
 __CPROVER_ensures((RET != 0) == (__CPROVER_old(th->cpu) == NULL ||
 	CH_REFUSES(CH_CPU(th), D_CPU0, VALUE_INT64, cpu->gindex) || CB_FAILED))
 __CPROVER_ensures((RET == 0 ? g_err == __CPROVER_old(g_err) : g_err > __CPROVER_old(g_err)) && DIAG_POST(3))
-__CPROVER_ensures(__CPROVER_old(th->cpu) == NULL ? th->cpu == NULL : th->cpu == cpu)
+__CPROVER_ensures((__CPROVER_old(th->cpu) == NULL && th->cpu == NULL) || (__CPROVER_old(th->cpu) != NULL && __CPROVER_pointer_equals(th->cpu, cpu)))
 __CPROVER_ensures(RET != 0 || CH_IGNORES(CH_CPU(th), D_CPU0, VALUE_INT64, cpu->gindex) ||
 	(CH_HOLDS(CH_CPU(th), VALUE_INT64, cpu->gindex) && th->chan[TH_CHAN_CPU].is_dirty != 0))
-__CPROVER_ensures(g_cb_calls >= __CPROVER_old(g_cb_calls) && g_cb_calls <= __CPROVER_old(g_cb_calls) + 1 &&
-	g_cb_fails >= __CPROVER_old(g_cb_fails) && g_cb_fails <= __CPROVER_old(g_cb_fails) + 1)
+/* the dirty callback runs exactly when the channel stores the value and was clean */
+__CPROVER_ensures(CB_DELTA_OK && g_cb_calls - __CPROVER_old(g_cb_calls) == ((__CPROVER_old(th->cpu) != NULL && CH_CALLS(CH_CPU(th), D_CPU0, VALUE_INT64, cpu->gindex)) ? 1u : 0u))
 ;
 
 #endif
